@@ -126,6 +126,10 @@ TREE_SRC = (
 
 
 def script_for(src, data, expected, src0=None, uses_tree=False):
+    if isinstance(expected, G.Failure):
+        expected = "raises " + expected.cls
+    elif isinstance(expected, str) and not expected.startswith("<"):
+        expected = repr(expected)
     s = ("import jinja2\n"
          "env = jinja2.Environment(extensions=['jinja2.ext.loopcontrols'])\n"
          f"src = {src!r}\n"
@@ -286,7 +290,7 @@ def shard(arg) -> core.Part:
 # alternate=False: one ordinary and one colliding renaming per program
 QUICK = [
     ("full", G.POOL2, 2, 16, True),
-    ("core", G.POOL2, 3, 16, True),
+    ("macro5", G.POOL2, 5, 16, True),
     ("tiny2", G.POOL2, 3, 8, True),
     ("tiny3", G.POOL2, 3, 8, True),
     ("alias", G.POOL3, 3, 8, False),
@@ -299,6 +303,8 @@ THOROUGH = [
     ("tiny", G.POOL2, 4, 64, True),
     ("tiny2", G.POOL2, 4, 64, True),
     ("tiny3", G.POOL2, 4, 128, True),
+    ("deep1", G.POOL2, 5, 256, True),
+    ("macro5", G.POOL2, 6, 128, True),
     ("alias", G.POOL3, 4, 128, False),
     ("alias5", G.POOL3, 5, 512, False),
 ]
